@@ -624,6 +624,25 @@ def check_C18(inp):
     C = cls_of(ver)
     rng = random.Random(inp.get("seed", 0))
     ref = all_observe(C(vector), ver)
+    # every observable once more, each on an object nothing else was called on: the order in
+    # which all_observe itself calls the accessors must not matter either
+    for s_ in (False, True):
+        for m_ in (False, True):
+            d = C(vector).as_json(sort=s_, minimal=m_)
+            k = "json_%s_%s" % (s_, m_)
+            if (list(d.items()), type(d).__name__) != ref[k]:
+                return "as_json(sort=%s, minimal=%s) on a fresh object differs from the result after other accessor calls: %r vs %r" % (
+                    s_, m_, list(d.items())[:30], ref[k][0][:30])
+    fresh = {"scores": lambda o: o.scores(), "severities": lambda o: o.severities(), "clean": lambda o: o.clean_vector(), "rh": lambda o: o.rh_vector()}
+    if ver in ("3", "4"):
+        fresh["clean_noprefix"] = lambda o: o.clean_vector(output_prefix=False)
+    if ver in ("2", "3"):
+        fresh["tv"] = lambda o: o.temporal_vector()
+        fresh["ev"] = lambda o: o.environmental_vector()
+    for k, f in fresh.items():
+        v_ = f(C(vector))
+        if v_ != ref[k]:
+            return "%s on a fresh object differs from the result after other accessor calls: %r vs %r" % (k, v_, ref[k])
     c = C(vector)
     names = ["scores", "severities", "clean", "rh", "eq", "hash", "json", "json_min", "json_sort", "clean_np", "tv", "ev"]
     for _ in range(3):
